@@ -114,6 +114,22 @@ jump() {{ FTail() }};\ngconst() -> ([1]);\nst_g([1]) -> ([1]);\nreturn([1]);\nFT
     out
 }
 
+/// Generated family: one variable named at TWO argument positions of one invocation, in a program
+/// where nothing else dangles (a single mutation of a corpus program always leaves the replaced
+/// variable unconsumed and is rejected for that reason). A variable is consumed by the statement
+/// that uses it - once - whatever its type.
+fn same_variable_twice() -> Vec<(String, String)> {
+    let mut out = vec![];
+    for (t, decl) in [("felt252", ""), ("u128", ""), ("Arr", "type Arr = Array<felt252>;\n"), ("Dict", "type Dict = Felt252Dict<felt252>;\n"), ("BoxF", "type BoxF = Box<felt252>;\n")] {
+        out.push((format!("generated: struct_construct<({t}, {t})>([0], [0]) - the same variable twice"),
+            format!("type felt252 = felt252;\ntype u128 = u128;\n{decl}type Pair = Struct<ut@Tuple, {t}, {t}>;\nlibfunc mk = struct_construct<Pair>;\nlibfunc st = store_temp<Pair>;\nmk([0], [0]) -> ([1]);\nst([1]) -> ([1]);\nreturn([1]);\nf@0([0]: {t}) -> (Pair);\n")));
+    }
+    // and with a second, properly consumed parameter next to it
+    out.push(("generated: felt252_add([0], [0]) with [1] dropped".to_string(),
+        "type felt252 = felt252;\nlibfunc add = felt252_add;\nlibfunc dr = drop<felt252>;\nlibfunc st = store_temp<felt252>;\ndr([1]) -> ();\nadd([0], [0]) -> ([2]);\nst([2]) -> ([2]);\nreturn([2]);\nf@0([0]: felt252, [1]: felt252) -> (felt252);\n".to_string()));
+    out
+}
+
 #[test]
 fn __verif_n_c15_independent() {
     std::panic::set_hook(Box::new(|_| {}));
@@ -121,6 +137,7 @@ fn __verif_n_c15_independent() {
     let mut fail: Option<(String, String)> = None;
     let mut inputs = corpus();
     inputs.extend(interleaved());
+    inputs.extend(same_variable_twice());
     let thorough = std::env::var("VERIF_TIER").map(|t| t == "thorough").unwrap_or(false);
     if thorough { inputs.extend(sierra_mutants::e2e_corpus()); }
     let mut seed = 0x0123456789abcdefu64;
